@@ -95,6 +95,17 @@ impl From<NamespaceError> for Error {
     }
 //@end
 }
+impl vstd::std_specs::convert::FromSpecImpl<EncodingError> for Error {
+    open spec fn obeys_from_spec() -> bool { true }
+    open spec fn from_spec(e: EncodingError) -> Self { Error::Encoding(e) }
+}
+impl From<EncodingError> for Error {
+//@extract errors::From<EncodingError>::from | src/errors.rs :: impl From<EncodingError> for Error :: fn from | serves=C12
+    fn from(error: EncodingError) -> Error {
+        Self::Encoding(error)
+    }
+//@end
+}
 impl From<SyntaxError> for Error {
 //@extract errors::From<SyntaxError>::from | src/errors.rs :: impl From<SyntaxError> for Error :: fn from | serves=C01,C03
     fn from(error: SyntaxError) -> (r: Self)
